@@ -11,12 +11,24 @@
     * what the decoders do with an arbitrary tree (`geomOfDoc`, `featureOfDoc`, `fcOfDoc`):
       struct-field matching (case folding), `json.Unmarshal` into `[2]float64` / nested slices
       (null handling, short / long arrays), "saved" type errors vs. hard errors of nested
-      Unmarshalers, the type switch, `g.Geometry()` on the decoded members (a nil member is rejected), `featureUnmarshalFinish`.
+      Unmarshalers, the type switch, `g.Geometry()` on the decoded members (a nil member is rejected), `featureUnmarshalFinish`;
+    * the typed helper types `geojson.Point` … `geojson.MultiPolygon` (`typedOfDoc`), `bbox.go`
+      (`newBBox`, `bboxValid`, `bboxBound`), values with NIL MEMBERS on the marshalling side
+      (`geomMemberN` over `Orb.CoreNil.NGeom`: a nil ring / line / polygon is written as `null`).
+  PANICS ARE EXPLICIT.  Every place where the Go code dereferences a pointer that a decode can leave
+  nil, or indexes a slice, is a function with a `.panic` arm (`memberGeometry`, `featureFinishPtr`,
+  `derefGeometry`, `derefCoords`, `bboxAt`); the CHECK that the Go code makes before it (the nil-member
+  loop of fix 6b9e2e7, `if doc == nil` of fix 87467ba, `if doc.Geometry != nil`, `Valid()`) is a
+  separate `if` in the caller.  The totality theorems of OrbProofs/C02.lean therefore say that each
+  check covers its dereference: delete a check from the model (or from the Go code and hence from
+  the model) and the theorem is false (`members_check_needed`, `feature_check_needed`,
+  `typed_check_needed`, `bbox_check_needed` show the panic behind each check).
   Coordinates are float64 bit patterns.  Both codecs share the definitions; `Codec` selects the
   documented differences (bson `omitempty` drops empty slices, bson rejects over-long arrays and
   aborts on the first type error, json saves type errors and goes on).
 -/
 import Orb.Basic
+import Orb.CoreNil
 
 namespace Orb.GeoJSON
 open Orb
@@ -210,6 +222,118 @@ def geomDoc (c : Codec) (v : V) : Json :=
   | .bson, .null => .obj [("type", .str "")]
   | _, j => j
 
+/-! #### values with nil members (`Orb.CoreNil.NGeom`)
+
+`orb.Polygon{nil}`, `orb.MultiLineString{nil, {…}}`, `orb.MultiPolygon{nil, {nil}}`,
+`orb.Collection{orb.MultiPoint(nil)}`: both serialisers write a nil slice as `null`, at every nesting
+level, so the member shows up as a `null` INSIDE "coordinates" (or as `"coordinates":null` for a
+typed-nil member of a collection).  The length `omitempty` (bson) looks at is that of the outermost
+slice. -/
+
+abbrev NG := CoreNil.NGeom UInt64
+
+def nptsJ : CoreNil.NPts UInt64 → Json
+  | none => .null
+  | some ps => ptsJ ps
+def nptssJ : CoreNil.NPtss UInt64 → Json
+  | none => .null
+  | some l => .arr (l.map nptsJ)
+def nptsssJ : CoreNil.NPtsss UInt64 → Json
+  | none => .null
+  | some l => .arr (l.map nptssJ)
+
+/-- `len` of a possibly nil slice -/
+def lenN {α : Type} (o : Option (List α)) : Nat := (o.getD []).length
+
+mutual
+/-- `NewGeometry(v)` marshalled as a member, for a Go value with nil members (cf. `geomMember`,
+    `geomJ`): `Ring(nil)` becomes `Polygon{nil}` = `[null]`; a nil interface, a nil collection and
+    an empty collection are written as `null`. -/
+def geomMemberN (c : Codec) : NG → Json
+  | .nilIface => .null
+  | .point p => .obj [("type", .str "Point"), ("coordinates", ptJ p)]
+  | .multiPoint ps => coordDoc c "MultiPoint" (nptsJ ps) (lenN ps)
+  | .lineString ps => coordDoc c "LineString" (nptsJ ps) (lenN ps)
+  | .multiLineString ls => coordDoc c "MultiLineString" (nptssJ ls) (lenN ls)
+  | .ring ps => .obj [("type", .str "Polygon"), ("coordinates", .arr [nptsJ ps])]
+  | .polygon rs => coordDoc c "Polygon" (nptssJ rs) (lenN rs)
+  | .multiPolygon ps => coordDoc c "MultiPolygon" (nptsssJ ps) (lenN ps)
+  | .bound a b => .obj [("type", .str "Polygon"), ("coordinates", .arr [ptsJ (boundRing a b)])]
+  | .nilCollection => .null
+  | .collection [] => .null
+  | .collection (g :: gs) =>
+    .obj [("type", .str "GeometryCollection"), ("geometries", .arr (geomMemberN c g :: geomMembersN c gs))]
+def geomMembersN (c : Codec) : List NG → List Json
+  | [] => []
+  | g :: gs => geomMemberN c g :: geomMembersN c gs
+end
+
+/-- `NewGeometry(v).MarshalJSON()` / `bson.Marshal(NewGeometry(v))` for a value with nil members -/
+def geomDocN (c : Codec) (v : NG) : Json :=
+  match c, geomMemberN c v with
+  | .bson, .null => .obj [("type", .str "")]
+  | _, j => j
+
+mutual
+/-- some slice BELOW the top level is nil (a nil ring / line / polygon, a typed-nil or nil collection
+    as a member of a collection) -/
+def hasNilSliceMember : NG → Bool
+  | .multiLineString (some l) | .polygon (some l) => l.any (·.isNone)
+  | .multiPolygon (some l) => l.any fun pg => match pg with | none => true | some rs => rs.any (·.isNone)
+  | .collection gs => nilSliceMembers gs
+  | _ => false
+def nilSliceMembers : List NG → Bool
+  | [] => false
+  | g :: gs => topNilSlice g || hasNilSliceMember g || nilSliceMembers gs
+/-- the value itself is a nil slice -/
+def topNilSlice : NG → Bool
+  | .multiPoint none | .lineString none | .multiLineString none | .ring none | .polygon none
+  | .multiPolygon none | .nilCollection => true
+  | _ => false
+end
+
+mutual
+/-- some member of a collection (at any depth) is the nil INTERFACE: not a geometry at all -/
+def hasNilIfaceMember : NG → Bool
+  | .collection gs => nilIfaceMembers gs
+  | _ => false
+def nilIfaceMembers : List NG → Bool
+  | [] => false
+  | g :: gs => g.isNilIface || hasNilIfaceMember g || nilIfaceMembers gs
+end
+
+mutual
+/-- the nil-free value the decoders and `orb.Equal` see: a nil slice is the empty slice of its type;
+    a nil-interface member is written like an empty collection (`null`) -/
+def forgetNil : NG → G
+  | .nilIface => .collection []
+  | .point p => .point p
+  | .multiPoint ps => .multiPoint (CoreNil.ptsOf ps)
+  | .lineString ps => .lineString (CoreNil.ptsOf ps)
+  | .multiLineString ls => .multiLineString (CoreNil.ptssOf ls)
+  | .ring ps => .ring (CoreNil.ptsOf ps)
+  | .polygon rs => .polygon (CoreNil.ptssOf rs)
+  | .multiPolygon ps => .multiPolygon (CoreNil.ptsssOf ps)
+  | .bound a b => .bound a b
+  | .nilCollection => .collection []
+  | .collection gs => .collection (forgetNils gs)
+def forgetNils : List NG → List G
+  | [] => []
+  | g :: gs => forgetNil g :: forgetNils gs
+end
+
+/-- the top-level value of `Orb.Basic` (nil-ness kept at the top only) -/
+def toV : NG → V
+  | .nilIface => .nilIface
+  | .multiPoint none => .nilSlice .multiPoint
+  | .lineString none => .nilSlice .lineString
+  | .multiLineString none => .nilSlice .multiLineString
+  | .ring none => .nilSlice .ring
+  | .polygon none => .nilSlice .polygon
+  | .multiPolygon none => .nilSlice .multiPolygon
+  | .nilCollection => .nilSlice .collection
+  | g => .val (forgetNil g)
+
 /-- A `geojson.Feature` (also the decoded one). -/
 structure Feature where
   id : Option Json := none                  -- nil interface / a JSON-representable value
@@ -249,9 +373,14 @@ def propsDoc : Option Members → Json
   | _ => .null
 
 /-- `newFeatureDoc` through the serialiser: struct order id, type, bbox, geometry, properties. -/
-def featureDoc (c : Codec) (f : Feature) : Json :=
+def featureDocG (c : Codec) (f : Feature) (geometry : Json) : Json :=
   .obj (idMember c f.id ++ [("type", .str "Feature")] ++ bboxMember f.bbox ++
-    [("geometry", geomMember c f.geom), ("properties", propsDoc f.props)])
+    [("geometry", geometry), ("properties", propsDoc f.props)])
+
+def featureDoc (c : Codec) (f : Feature) : Json := featureDocG c f (geomMember c f.geom)
+
+/-- a feature whose `Geometry` has nil members: `n` is the Go value, `f.geom` what it denotes -/
+def featureDocN (c : Codec) (f : Feature) (n : NG) : Json := featureDocG c f (geomMemberN c n)
 
 def featureMember (c : Codec) : Option Feature → Json
   | none => .null
@@ -263,14 +392,27 @@ def eraseKey (k : String) : Members → Members
 
 /-- `newFeatureCollectionDoc`: a clone of ExtraMembers with "type" set, "bbox" deleted and set again
     when `fc.BBox != nil`, "features" set (`[]` for a nil slice); the map is written key-sorted. -/
-def fcDoc (c : Codec) (fc : FC) : Json :=
+def fcDocG (fc : FC) (features : List Json) : Json :=
   .obj (normKeys (
     valOfMembers (eraseKey "bbox" (fc.extra.getD [])) ++
     [("type", .str "FeatureCollection")] ++
     (match fc.bbox with
      | some bb => [("bbox", bboxJ bb)]
      | none => []) ++
-    [("features", .arr ((fc.features.getD []).map (featureMember c)))]))
+    [("features", .arr features)]))
+
+def fcDoc (c : Codec) (fc : FC) : Json := fcDocG fc ((fc.features.getD []).map (featureMember c))
+
+/-- the feature members when the geometries have nil members (`ns`: the Go values, in order, one
+    per non-nil feature pointer) -/
+def featureMembersN (c : Codec) : List (Option Feature) → List NG → List Json
+  | [], _ => []
+  | none :: fs, ns => .null :: featureMembersN c fs ns
+  | some f :: fs, n :: ns => featureDocN c f n :: featureMembersN c fs ns
+  | some f :: fs, [] => featureDoc c f :: featureMembersN c fs []
+
+def fcDocN (c : Codec) (fc : FC) (ns : List NG) : Json :=
+  fcDocG fc (featureMembersN c (fc.features.getD []) ns)
 
 /-! ### unmarshalling -/
 
@@ -373,8 +515,8 @@ structure DG where
   bare : Bool
 deriving Repr, Inhabited
 
-/-- A `null` element of "geometries" is a nil `*Geometry`; the `case "GeometryCollection"` arm
-    rejects it (`return ErrInvalidGeometry`) before `Geometry()` would dereference it. -/
+/-- the nil-member check of the `case "GeometryCollection"` arm (fix 6b9e2e7):
+    `for _, m := range jg.Geometries { if m == nil { return ErrInvalidGeometry } }` -/
 def nilMember {α : Type} : R α := .err .invalid
 
 /-- fields of `jsonGeometry` / `bsonGeometry` while the document's members are being decoded -/
@@ -385,13 +527,24 @@ structure GSt where
   saved : Bool := false                        -- encoding/json: a saved UnmarshalTypeError
 deriving Inhabited
 
-/-- `Geometry()` over decoded members (a nil pointer member has been rejected before). -/
+/-- `geom.Geometry()` on one element of `g.Geometries`: the method reads `g.Coordinates` through the
+    receiver, so a nil pointer is DEREFERENCED.  (Nothing in this function checks for nil — the
+    check is the caller's, see `finishGeometry`.) -/
+def memberGeometry : Option DG → R G
+  | none => .panic "nil pointer dereference: (*Geometry).Geometry"
+  | some d => .ok d.v.toGeom
+
+/-- `(*Geometry).Geometry()` for a collection: `for _, geom := range g.Geometries { c = append(c,
+    geom.Geometry()) }`. -/
 def membersGeometry : List (Option DG) → R (List G)
   | [] => .ok []
-  | none :: _ => nilMember
-  | some d :: rest =>
-    match membersGeometry rest with
-    | .ok gs => .ok (d.v.toGeom :: gs)
+  | m :: rest =>
+    match memberGeometry m with
+    | .ok g =>
+      (match membersGeometry rest with
+       | .ok gs => .ok (g :: gs)
+       | .err e => .err e
+       | .panic s => .panic s)
     | .err e => .err e
     | .panic s => .panic s
 
@@ -402,7 +555,9 @@ def hasNilMember : List (Option DG) → Bool
   | some _ :: rest => hasNilMember rest
 
 /-- the part of `UnmarshalJSON` / `UnmarshalBSON` after the struct decode: saved error, the type
-    switch, and `g.Type = g.Geometry().GeoJSONType()`. -/
+    switch, and `g.Type = g.Geometry().GeoJSONType()` — which, for a collection, calls `Geometry()`
+    on every member (`membersGeometry`); the nil-member loop in the switch arm is what keeps that
+    from dereferencing a nil pointer. -/
 def finishGeometry (c : Codec) (st : GSt) : R DG :=
   if st.saved then .err .json else
   if st.ty = "GeometryCollection" then
@@ -410,7 +565,11 @@ def finishGeometry (c : Codec) (st : GSt) : R DG :=
     | none => .ok ⟨.val (.collection []), true⟩
     | some ms =>
       if hasNilMember ms then nilMember
-      else .ok ⟨.val (.collection (ms.filterMap fun m => m.map (·.v.toGeom))), false⟩
+      else
+        match membersGeometry ms with
+        | .ok gs => .ok ⟨.val (.collection gs), false⟩
+        | .err e => .err e
+        | .panic s => .panic s
   else
     match st.coords with
     | none =>
@@ -535,6 +694,58 @@ def geomPtrOfDoc (j : Json) : R V :=
   | .null => .ok .nilIface
   | j => geomOfDoc .json j
 
+/-- `g.Type` after a successful decode: `g.Geometry().GeoJSONType()` (geometry.go, last statement
+    of `UnmarshalJSON` / `UnmarshalBSON`) — the name of the decoded VALUE's kind, not the string the
+    document carried (they coincide, the switch having matched it). -/
+def typeOfV : V → String
+  | .val g => kindName g.kind
+  | .nilSlice k => kindName k
+  | .nilIface => ""
+
+/-! #### the typed helper types `geojson.Point` … `geojson.MultiPolygon`
+
+`func (p *Point) UnmarshalJSON(data)`: `g := &Geometry{}; unmarshalJSON(data, &g)` — the target is
+the POINTER `g`, so a JSON `null` sets it to nil — then `g.Coordinates.(orb.Point)`.  The BSON twin
+decodes a top-level document, which is never `null`. -/
+
+/-- the pointer `g` after `unmarshalJSON(data, &g)` / `bson.Unmarshal(data, &g)` -/
+def typedGeomPtr (c : Codec) (j : Json) : R (Option DG) :=
+  match c, j with
+  | .json, .null => .ok none
+  | _, j => (decodeGeometry c j).map some
+
+/-- `g.Coordinates`: dereferences `g` -/
+def derefCoords : Option DG → R V
+  | none => .panic "nil pointer dereference: g.Coordinates"
+  | some d => .ok d.v
+
+/-- `g.Coordinates.(orb.K)`: the interface holds a value of dynamic type K (a typed nil slice
+    counts; a collection has a nil `Coordinates`, its members sit in `Geometries`) -/
+def assertKind (k : Kind) : V → Bool
+  | .val (.collection _) => false
+  | .val g => g.kind == k
+  | .nilSlice k' => k' == k
+  | .nilIface => false
+
+/-- `json.Unmarshal(data, &geojson.K{})` / `bson.Unmarshal(data, &geojson.K{})` for the helper type
+    of kind `k` ∈ {point, multiPoint, lineString, multiLineString, polygon, multiPolygon}.
+    `if g == nil { return ErrInvalidGeometry }` (the six `UnmarshalJSON`; the `UnmarshalBSON` twins
+    have no such check and need none, see `typedGeomPtr_nil_iff`) stands between the decode and
+    `g.Coordinates`. -/
+def typedOfDoc (c : Codec) (k : Kind) (j : Json) : R V :=
+  match typedGeomPtr c j with
+  | .err e => .err e
+  | .panic s => .panic s
+  | .ok p =>
+    if c = .json ∧ p.isNone then .err .invalid else
+    match derefCoords p with
+    | .ok v => if assertKind k v then .ok v else .err .notType   -- "geojson: not a K type"
+    | .err e => .err e
+    | .panic s => .panic s
+
+/-- the six helper kinds -/
+def typedKinds : List Kind := [.point, .multiPoint, .lineString, .multiLineString, .polygon, .multiPolygon]
+
 /-- fields of `featureDoc` while being decoded -/
 structure FSt where
   id : Option Json := none
@@ -611,37 +822,60 @@ def decodeFMembers (c : Codec) : Members → FSt → R FSt
     | .err e => .err e
     | .panic s => .panic s
 
-/-- `featureUnmarshalFinish`. -/
+/-- `doc.Geometry.Coordinates`, `doc.Geometry.Geometry()`: dereference the pointer -/
+def derefGeometry : Option DG → R DG
+  | none => .panic "nil pointer dereference: doc.Geometry"
+  | some d => .ok d
+
+/-- `featureUnmarshalFinish` once `doc` has been dereferenced: `if doc.Geometry != nil { … }` is the
+    check in front of the two uses of `doc.Geometry`. -/
 def featureFinish (st : FSt) : R Feature :=
   if st.saved then .err .json else
   if st.ty ≠ "Feature" then .err .notType else
-  match st.geom with
-  | none => .ok { id := st.id, typ := st.ty, bbox := st.bbox, geom := .nilIface, props := st.props }
-  | some d =>
-    if d.bare then .err .invalid
-    else .ok { id := st.id, typ := st.ty, bbox := st.bbox, geom := d.v, props := st.props }
+  if st.geom.isNone then
+    .ok { id := st.id, typ := st.ty, bbox := st.bbox, geom := .nilIface, props := st.props }
+  else
+    match derefGeometry st.geom with
+    | .ok d =>
+      if d.bare then .err .invalid
+      else .ok { id := st.id, typ := st.ty, bbox := st.bbox, geom := d.v, props := st.props }
+    | .err e => .err e
+    | .panic s => .panic s
 
-/-- `(*Feature).UnmarshalJSON(data)` / `UnmarshalBSON`.  `rawNull` says that `data` is exactly the
-    four bytes `null` (the `bytes.Equal` short cut).  Otherwise the document is decoded into a
-    `**featureDoc`: a `null` that is not byte-equal to "null" (surrounding white space) sets that
-    pointer to nil, which is treated like the exact `null`. -/
-def featureOfDoc (c : Codec) (rawNull : Bool) (j : Json) : R Feature :=
-  if rawNull then .ok { typ := "" } else
+/-- `unmarshalJSON(data, &doc)` / `bson.Unmarshal(data, &doc)` with `doc := &featureDoc{}`: the
+    POINTER afterwards (`none`: a JSON `null` set it to nil), or the decode's error.  A bson array is
+    a document none of whose keys ("0", "1", …) selects a field. -/
+def featureDocPtr (c : Codec) (j : Json) : R (Option FSt) :=
   match j with
   | .null =>
     (match c with
-     | .json => .ok { typ := "" }        -- `if doc == nil { *f = Feature{}; return nil }`
+     | .json => .ok none
      | .bson => .err .json)
-  | .obj ms =>
-    (match decodeFMembers c ms {} with
-     | .ok st => featureFinish st
-     | .err e => .err e
-     | .panic s => .panic s)
+  | .obj ms => (decodeFMembers c ms {}).map some
   | .arr _ =>
     (match c with
      | .json => .err .json
-     | .bson => .err .notType)     -- a bson array is a document without a "type" member
+     | .bson => .ok (some {}))
   | _ => .err .json
+
+/-- `featureUnmarshalFinish(doc, f)` as called: its first statement reads `doc.Type` -/
+def featureFinishPtr : Option FSt → R Feature
+  | none => .panic "nil pointer dereference: doc.Type"
+  | some st => featureFinish st
+
+/-- `(*Feature).UnmarshalJSON(data)` / `UnmarshalBSON`.  `rawNull` says that `data` is exactly the
+    four bytes `null` (the `bytes.Equal` short cut).  Otherwise the document is decoded into a
+    `**featureDoc`; `UnmarshalJSON` then checks `if doc == nil` (fix 87467ba: a `null` with
+    surrounding white space) before `featureUnmarshalFinish` dereferences it.  `UnmarshalBSON` has
+    no such check — and needs none, `featureDocPtr .bson` never leaving the pointer nil. -/
+def featureOfDoc (c : Codec) (rawNull : Bool) (j : Json) : R Feature :=
+  if rawNull then .ok { typ := "" } else
+  match featureDocPtr c j with
+  | .err e => .err e
+  | .panic s => .panic s
+  | .ok p =>
+    if c = .json ∧ p.isNone then .ok { typ := "" }   -- `if doc == nil { *f = Feature{}; return nil }`
+    else featureFinishPtr p
 
 /-- `var f *Feature; json.Unmarshal(data, &f)`. -/
 def featurePtrOfDoc (j : Json) : R (Option Feature) :=
@@ -741,6 +975,15 @@ def fcMayPanic (c : Codec) (m : Members) : Bool :=
   | .panic _ => true
   | _ => false
 
+/-- the error classes of the top-level members that fail, one per failing member ("type", "bbox",
+    "features", the foreign members): Go's random map order reports ONE of them — and only one of
+    them; with a single failing member the reported class is determined. -/
+def fcErrClasses (c : Codec) (m : Members) : List Err :=
+  (match fcTypeOf c (lookupKey "type" m) with | .err e => [e] | _ => []) ++
+  (match fcBBoxOf c (lookupKey "bbox" m) with | .err e => [e] | _ => []) ++
+  (match fcFeaturesOf c (lookupKey "features" m) with | .err e => [e] | _ => []) ++
+  (match fcExtrasOf c (m.filter fun kv => !reservedKey kv.1) with | .err e => [e] | _ => [])
+
 /-- `(*FeatureCollection).UnmarshalJSON(data)` / `UnmarshalBSON`. -/
 def fcOfDoc (c : Codec) (rawNull : Bool) (j : Json) : R FC :=
   if rawNull then .ok { typ := "" } else
@@ -761,6 +1004,32 @@ def fcPtrOfDoc (j : Json) : R (Option FC) :=
   match j with
   | .null => .ok none
   | j => (fcOfDoc .json false j).map some
+
+/-! ### bbox.go -/
+
+/-- `NewBBox(b)` -/
+def newBBox (min max : Pt UInt64) : List UInt64 := [min.x, min.y, max.x, max.y]
+
+/-- `BBox.Valid()`: present, at least 4 elements, an even number of them -/
+def bboxValid : Option (List UInt64) → Bool
+  | none => false
+  | some l => decide (l.length ≥ 4) && l.length % 2 == 0
+
+/-- `bb[i]`: an index expression panics beyond the length -/
+def bboxAt (l : List UInt64) (i : Nat) : R UInt64 :=
+  match l[i]? with
+  | some x => .ok x
+  | none => .panic "index out of range"
+
+/-- `BBox.Bound()`: `if !bb.Valid() { return orb.Bound{} }`, then `bb[0], bb[1], bb[mid], bb[mid+1]`
+    with `mid := len(bb) / 2`. -/
+def bboxBound (bb : Option (List UInt64)) : R (Pt UInt64 × Pt UInt64) :=
+  if !bboxValid bb then .ok (⟨0, 0⟩, ⟨0, 0⟩) else
+  let l := bb.getD []
+  let mid := l.length / 2
+  (bboxAt l 0).bind fun x0 => (bboxAt l 1).bind fun y0 =>
+  (bboxAt l mid).bind fun x1 => (bboxAt l (mid + 1)).bind fun y1 =>
+  .ok (⟨x0, y0⟩, ⟨x1, y1⟩)
 
 /-! ### what a value denotes after a round trip -/
 
